@@ -577,7 +577,21 @@ impl PathRouter {
                         }
                     }
                 };
-                fallback_path.unwrap_or_else(|| format!("{}{{*catch_all}}", parsed_prefix.raw))
+                fallback_path.unwrap_or_else(|| {
+                    // A catch-all parameter can't match an empty string: a request whose path
+                    // is *exactly* the prefix (e.g. `POST /room` for the prefix `/room`) must
+                    // reach this fallback too, as documented on `Blueprint::fallback`.
+                    let bare_prefix = parsed_prefix.raw.clone();
+                    if !bare_prefix.is_empty()
+                        && validation_router.insert(bare_prefix.clone(), ()).is_ok()
+                    {
+                        path_catchall2fallback_id.insert(bare_prefix.clone(), *id);
+                        path_based_fallback_router
+                            .insert(bare_prefix, *id)
+                            .unwrap();
+                    }
+                    format!("{}{{*catch_all}}", parsed_prefix.raw)
+                })
             };
 
             if let Err(e) = validation_router.insert(fallback_path.clone(), ()) {
